@@ -1524,26 +1524,38 @@ class TimePoint:
             while new._hour_of_day != hour_of_day:
                 new._hour_of_day += 1.0
                 new._tick_over()
+        is_later_day = False
         if day_of_week is not None:
             new = new.to_week_date()
             while new._day_of_week != day_of_week:
                 new._day_of_week += 1
                 new._tick_over()
+                is_later_day = True
         if day_of_month is not None:
             new = new.to_calendar_date()
             while new._day_of_month != day_of_month:
                 new._day_of_month += 1
                 new._tick_over()
+                is_later_day = True
         if day_of_year is not None:
             new = new.to_ordinal_date()
             while new._day_of_year != day_of_year:
                 new._day_of_year += 1
                 new._tick_over()
+                is_later_day = True
         if week_of_year is not None:
             new = new.to_week_date()
             while new._week_of_year != week_of_year:
                 new._week_of_year += 1
                 new._tick_over()
+                is_later_day = True
+        if is_later_day and hour_of_day is None and (
+                minute_of_hour is not None or second_of_minute is not None):
+            # On a later day the earliest time with this minute/second is
+            # in hour 0 (and minute 0), not in the hour we started from.
+            new._hour_of_day = 0
+            if minute_of_hour is None:
+                new._minute_of_hour = 0
         if month_of_year is not None:
             new = new.to_calendar_date()
             while new._month_of_year != month_of_year:
